@@ -3,7 +3,7 @@ NEXT GenNext
 CONSTANTS
   StrictKeyed = TRUE
   Dev = "none"
-  Families = {"maxlen", "scalar", "single", "shape", "long", "nest", "wide", "meta", "rawbool"}
+  Families = {"utf8", "maxlen", "scalar", "single", "shape", "long", "nest", "wide", "meta", "rawbool"}
   TextLens = {0, 1, 2, 300}
   Scalars = {}
   Keys = {}
